@@ -1,4 +1,6 @@
 import CJ.Lemmas.CodecPath
+import CJ.Lemmas.Responder
+import CJ.Gen.C15Loop
 /-!
 # C15 — every encoder in the registration channels is inverted exactly by its decoder
 
@@ -433,6 +435,219 @@ theorem exchange_roundtrip (seal_ : Bytes → Bytes) (open_ : Bytes → Option B
   rw [lenientParse_of_ok hparse]
   exact responseFor_queryMessage id _ dom maxUDP hm dec f
     (by rw [upper_flatten_chunks_lower _ (L.upper _)]; exact L.inv _)
+
+/-! ## several requesters at once: the receive loop of the responder
+
+`RecvAndRespond` receives into `var buf [4096]byte` declared **inside** the loop body and starts one
+goroutine per datagram whose closure captures that array. `Loop` (CJ/Model/Responder.lean) is that loop
+with the buffer as an explicit object and an arbitrary schedule. The theorems are for every schedule,
+every number of datagrams and every handler function. -/
+
+/-- **isolation**: whatever the schedule, when everything was received and every handler has run, the
+datagrams written are — up to order — exactly what each datagram's handler writes when it reads its own
+datagram, to that datagram's source address; likewise what the callback was given -/
+theorem recvloop_isolated (respond : Bytes → Option Bytes × Option Bytes) (queue : List Dgram) (sched : List Step)
+    (hq : (Loop.run true respond (Loop.init queue) sched).quiet) :
+    (Loop.run true respond (Loop.init queue) sched).sent.Perm (queue.flatMap (outOf respond)) ∧
+    (Loop.run true respond (Loop.init queue) sched).seen.Perm (queue.flatMap (seenOf respond)) := by
+  obtain ⟨ds, hp, hs, hc⟩ := loopInv_run respond queue sched _ (loopInv_init respond queue)
+  obtain ⟨hq1, hq2⟩ := hq
+  rw [hq2] at hp
+  have hds : ds = [] := by
+    cases ds with
+    | nil => rfl
+    | cons d t => simp at hp
+  subst hds
+  rw [hq1] at hs hc
+  simpa using And.intro hs hc
+
+/-- … and at **every** moment of every schedule, a datagram written to an address is the response to a
+datagram that came from that address, and what the callback was given was extracted from a datagram of
+the burst: no handler ever acts on another handler's bytes -/
+theorem recvloop_never_crosses (respond : Bytes → Option Bytes × Option Bytes) (queue : List Dgram) (sched : List Step) :
+    (∀ a x, (a, x) ∈ (Loop.run true respond (Loop.init queue) sched).sent →
+      ∃ d ∈ queue, d.addr = a ∧ (respond (received d.data)).2 = some x) ∧
+    (∀ p ∈ (Loop.run true respond (Loop.init queue) sched).seen,
+      ∃ d ∈ queue, (respond (received d.data)).1 = some p) := by
+  obtain ⟨ds, _, hs, hc⟩ := loopInv_run respond queue sched _ (loopInv_init respond queue)
+  constructor
+  · intro a x hx
+    have : (a, x) ∈ queue.flatMap (outOf respond) := hs.subset (List.mem_append_left _ hx)
+    obtain ⟨d, hd, hm⟩ := List.mem_flatMap.mp this
+    refine ⟨d, hd, ?_⟩
+    unfold outOf at hm
+    cases hr : (respond (received d.data)).2 with
+    | none => rw [hr] at hm; simp at hm
+    | some y =>
+      rw [hr] at hm
+      simp only [Option.map_some, Option.toList_some, List.mem_singleton, Prod.mk.injEq] at hm
+      exact ⟨hm.1.symm, by rw [hm.2]⟩
+  · intro p hp
+    have : p ∈ queue.flatMap (seenOf respond) := hc.subset (List.mem_append_left _ hp)
+    obtain ⟨d, hd, hm⟩ := List.mem_flatMap.mp this
+    refine ⟨d, hd, ?_⟩
+    unfold seenOf at hm
+    cases hr : (respond (received d.data)).1 with
+    | none => rw [hr] at hm; simp at hm
+    | some y =>
+      rw [hr] at hm
+      simp only [Option.toList_some, List.mem_singleton] at hm
+      rw [hm]
+
+/-- the per-iteration buffer is what the theorems rest on: with one array in front of the loop (here of
+4 bytes, its size does not matter), two datagrams and the schedule "receive, receive, run, run" the first
+requester is sent the answer to the second one's datagram (and the callback sees that datagram twice) -/
+theorem recvloop_hoisted_buffer_crosses :
+    (Loop.run false (fun b => (some b, some b)) ⟨[⟨0, [1]⟩, ⟨1, [2]⟩], [0, 0, 0, 0], [], [], []⟩
+      [.recv, .recv, .run 0, .run 0]).sent = [(0, [2]), (1, [2])] ∧
+    (Loop.run true (fun b => (some b, some b)) ⟨[⟨0, [1]⟩, ⟨1, [2]⟩], [0, 0, 0, 0], [], [], []⟩
+      [.recv, .recv, .run 0, .run 0]).sent = [(0, [1]), (1, [2])] := by
+  decide
+
+/-! ### the tie to the source: what the handler goroutine captures (regenerated table)
+
+`CJ/Gen/C15Loop.lean` lists, for every `go func() { … }()` started inside a loop of the DNS registrar
+packages, the variables of the enclosing function the literal uses, whether each is declared in the loop
+body (a new variable per iteration) and whether the loop writes it. `Loop` with `perIter = true` is the
+code's behaviour exactly when every captured variable the loop writes is per iteration. -/
+
+/-- captured variables that the loop writes although they are declared in front of it, and why that is
+harmless: `NewTLSPacketConn` (the requester's DNS-over-TLS transport) redials `conn` only after
+`wg.Wait()` has joined the two goroutines that use it -/
+def loopCaptureDischarged : List (String × String) := [("NewTLSPacketConn", "conn")]
+
+/-- every variable a per-datagram goroutine captures and the loop writes — the receive buffer, the length
+and the source address `ReadFrom` returned — is declared in the loop body -/
+theorem recvloop_captures_per_iteration :
+    ∀ c ∈ CJ.Gen.C15Loop.captures, c.loopWrites = true →
+      c.perIteration = true ∨ (c.fn, c.name) ∈ loopCaptureDischarged := by decide
+
+/-- the scan is not empty-handed: it found the handler of `RecvAndRespond` and its three per-datagram
+variables -/
+theorem recvloop_extractor_saw_the_code : 8 ≤ CJ.Gen.C15Loop.scannedFiles ∧
+    (∀ v ∈ ["buf", "n", "addr"], ∃ c ∈ CJ.Gen.C15Loop.captures,
+      c.fn = "RecvAndRespond" ∧ c.name = v ∧ c.perIteration = true ∧ c.loopWrites = true) := by decide
+
+/-- a request of the burst: who sends it, the query ID, the registration, and the query on the wire -/
+structure BurstReq where
+  addr : Nat
+  id : UInt16
+  p : Bytes
+  qbuf : Bytes
+
+/-- what the responder's handler does with the query of one requester (any Noise / base32 with the laws):
+the callback is given exactly the registration, and the datagram written is decoded by the requester to
+the callback's answer — or, if that datagram would exceed `maxUDPPayload`, to what `Decrypt` makes of the
+empty string (`response_send_oversize`) -/
+theorem responder_handles_own_query (seal_ : Bytes → Bytes) (open_ : Bytes → Option Bytes) (Nq : NoiseLaws seal_ open_)
+    (sealR : Bytes → Bytes) (openR : Bytes → Option Bytes) (Nr : NoiseLaws sealR openR)
+    (enc : Bytes → Bytes) (dec : Bytes → Option Bytes) (L : B32Laws enc dec) (dom : Name) (id : UInt16)
+    (maxUDP : Nat) (hm : maxUDP ≤ 4096) (cb : Bytes → Bytes) (p qbuf : Bytes)
+    (hq : requestEncode seal_ enc dom id p = .ok qbuf) (hlen : (sealR (cb p)).length + 2 ≤ 4096) :
+    ∃ out, responderRespond dom maxUDP dec open_ sealR (fun x => some (cb x)) qbuf = (some p, some out) ∧
+      (responseDecode openR dom out = some (cb p) ∨ responseDecode openR dom out = openR []) := by
+  obtain ⟨hdec, resp, f, rbuf, hrf, hS, henc, hback⟩ := exchange_roundtrip seal_ open_ Nq sealR openR Nr enc dec L dom id
+    maxUDP hm p (cb p) qbuf hq hlen
+  -- what `requestDecode = some p` says about the frame and the Noise message
+  have hfg : ∃ g, removeRequestFormat f = .ok g ∧ open_ g = some p := by
+    unfold requestDecode at hdec
+    rw [hrf] at hdec
+    simp only at hdec
+    cases hr : removeRequestFormat f with
+    | ok g => rw [hr] at hdec; exact ⟨g, rfl, hdec⟩
+    | err e => rw [hr] at hdec; cases hdec
+    | panic s => rw [hr] at hdec; cases hdec
+    | hang => rw [hr] at hdec; cases hdec
+  obtain ⟨g, hg, hopen⟩ := hfg
+  -- the datagram the handler writes is `responseSend`
+  have hsend : ∀ out, responseSend sealR resp maxUDP (cb p) = .ok out →
+      handleDatagram dom maxUDP dec (fun f => (open_ f).bind fun p => (some (cb p)).map sealR) qbuf = .ok (some out) := by
+    intro out ho
+    unfold responseSend at ho
+    obtain ⟨b, hb, ho⟩ := Outcome.bind_eq_ok ho
+    unfold responseEncode at hb
+    obtain ⟨fr, hfr, hb⟩ := Outcome.bind_eq_ok hb
+    unfold handleDatagram handleDatagramWith
+    rw [hrf]
+    simp only [hg, orReturn, hopen, Option.bind_some, Option.map_some, hfr]
+    have e1 : udpResponseWith true resp fr = udpResponse resp fr := udpResponseGo_eq resp fr
+    have e0 : udpResponseWith true resp [] = udpResponse resp [] := udpResponseGo_eq resp []
+    rw [e1, hb]
+    simp only
+    split at ho
+    · rename_i hbig
+      rw [if_pos hbig, e0, ho]
+    · rename_i hfit
+      rw [if_neg hfit]
+      cases ho
+      rfl
+  by_cases hfit : rbuf.length ≤ maxUDP
+  · have := response_send_fits sealR resp maxUDP (cb p) rbuf henc hfit
+    refine ⟨rbuf, ?_, Or.inl hback⟩
+    unfold responderRespond
+    rw [hdec, hsend rbuf this]
+  · obtain ⟨out, ho, hd⟩ := response_send_oversize sealR openR resp dom hS maxUDP (cb p) rbuf henc (by omega)
+    refine ⟨out, ?_, Or.inr hd⟩
+    unfold responderRespond
+    rw [hdec, hsend out ho]
+
+/-- **the exchange with any number of requesters at once**: `reqs` send their queries (each built by
+`requestEncode`, from its own address), the responder receives them back to back and handles them in
+any interleaving. When all handlers have run: the callback was given every registration exactly once
+(a permutation of the list of registrations); exactly one datagram per request was written; and every
+datagram written to an address is decoded by the requester at that address to the callback's answer to
+**its** registration (or to `Decrypt` of nothing when the answer did not fit `maxUDPPayload`). -/
+theorem concurrent_exchange_roundtrip (seal_ : Bytes → Bytes) (open_ : Bytes → Option Bytes) (Nq : NoiseLaws seal_ open_)
+    (sealR : Bytes → Bytes) (openR : Bytes → Option Bytes) (Nr : NoiseLaws sealR openR)
+    (enc : Bytes → Bytes) (dec : Bytes → Option Bytes) (L : B32Laws enc dec) (dom : Name)
+    (maxUDP : Nat) (hm : maxUDP ≤ 4096) (cb : Bytes → Bytes) (reqs : List BurstReq)
+    (henc : ∀ r ∈ reqs, requestEncode seal_ enc dom r.id r.p = .ok r.qbuf ∧ r.qbuf.length ≤ 4096 ∧
+      (sealR (cb r.p)).length + 2 ≤ 4096)
+    (sched : List Step)
+    (hquiet : (Loop.run true (responderRespond dom maxUDP dec open_ sealR fun x => some (cb x))
+      (Loop.init (reqs.map fun r => ⟨r.addr, r.qbuf⟩)) sched).quiet) :
+    let s := Loop.run true (responderRespond dom maxUDP dec open_ sealR fun x => some (cb x))
+      (Loop.init (reqs.map fun r => ⟨r.addr, r.qbuf⟩)) sched
+    s.seen.Perm (reqs.map (·.p)) ∧ s.sent.length = reqs.length ∧
+    ∀ a x, (a, x) ∈ s.sent → ∃ r ∈ reqs, r.addr = a ∧
+      (responseDecode openR dom x = some (cb r.p) ∨ responseDecode openR dom x = openR []) := by
+  intro s
+  let respond := responderRespond dom maxUDP dec open_ sealR fun x => some (cb x)
+  have hone : ∀ r ∈ reqs, ∃ out, respond (received r.qbuf) = (some r.p, some out) ∧
+      (responseDecode openR dom out = some (cb r.p) ∨ responseDecode openR dom out = openR []) := by
+    intro r hr
+    obtain ⟨h1, h2, h3⟩ := henc r hr
+    have : received r.qbuf = r.qbuf := by unfold received; exact List.take_of_length_le h2
+    rw [this]
+    exact responder_handles_own_query seal_ open_ Nq sealR openR Nr enc dec L dom r.id maxUDP hm cb r.p r.qbuf h1 h3
+  obtain ⟨hsent, hseen⟩ := recvloop_isolated respond _ sched hquiet
+  have hseenAll : ∀ (l : List BurstReq), (∀ r ∈ l, r ∈ reqs) →
+      (l.map fun r => (⟨r.addr, r.qbuf⟩ : Dgram)).flatMap (seenOf respond) = l.map (·.p) ∧
+      ((l.map fun r => (⟨r.addr, r.qbuf⟩ : Dgram)).flatMap (outOf respond)).length = l.length := by
+    intro l
+    induction l with
+    | nil => intro _; exact ⟨rfl, rfl⟩
+    | cons r t ih =>
+      intro hl
+      obtain ⟨out, ho, _⟩ := hone r (hl r (by simp))
+      obtain ⟨i1, i2⟩ := ih (fun r' h' => hl r' (by simp [h']))
+      constructor
+      · simp only [List.map_cons, List.flatMap_cons, i1]
+        simp [seenOf, ho]
+      · simp only [List.map_cons, List.flatMap_cons, List.length_append, i2]
+        simp [outOf, ho]
+        omega
+  obtain ⟨e1, e2⟩ := hseenAll reqs (fun _ h => h)
+  refine ⟨by rw [← e1]; exact hseen, by rw [← e2]; exact hsent.length_eq, ?_⟩
+  intro a x hx
+  obtain ⟨d, hd, ha, hr⟩ := (recvloop_never_crosses respond _ sched).1 a x hx
+  obtain ⟨r, hr', rfl⟩ := List.mem_map.mp hd
+  obtain ⟨out, ho, hdecode⟩ := hone r hr'
+  simp only at hr ha
+  rw [ho] at hr
+  simp only [Option.some.injEq] at hr
+  subst hr
+  exact ⟨r, hr', ha, hdecode⟩
 
 /-! ## tag obfuscators -/
 
